@@ -22,7 +22,10 @@ META = {
         "size loop descends from min(|P|,|H|) to 1, every k-subset of the pattern is tried, the only skips are duplicate "
         "mappings, the level exit happens only after a level is complete and only in maximum mode, and the final filter "
         "keeps len == best. R17: orientation parity of get_mappings over (direction x pattern_is_G1) and of "
-        "_prepare_orientation's flag."
+        "_prepare_orientation's flag. The small decision functions (edge predicates of both twins, _prepare_orientation, "
+        "get_mappings) are decided by tabulating them with the analyser's own evaluator on a finite sample domain "
+        "(pairs of bond orders; graph sizes; direction x flag with the two conversions kept symbolic), with the "
+        "structural rule as fall-back when the evaluator refuses."
     ),
     "rules": {"R2": "matcher roles / induced enumeration / inversion", "R16": "exhaustive descending search shape",
               "R17": "orientation parity over the finite flag space", "R13": "edge predicate covers every configured attribute"},
